@@ -208,4 +208,6 @@ def run(ctx):
 
 
 def replay(ctx, rep):
+    if rep.get("signature") in ("restored-in-a-state-never-built", "failing-check-not-executed"):
+        return H2.replay_oracles(ctx, rep)
     return H.replay_history(ctx, rep)
